@@ -314,39 +314,55 @@ func escrowCreation(p *Prog, r *Report, rule string, ctors []string, escrowCall,
 	}
 	sort.Slice(fns, func(i, j int) bool { return fname(fns[i]) < fname(fns[j]) })
 	for _, fn := range fns {
-		var ctorCalls []ssa.CallInstruction
-		for _, c := range calls(fn) {
-			if p.callIs(c, ctors...) {
-				ctorCalls = append(ctorCalls, c)
+		if p.isLocalClosure(fn) {
+			continue // analysed as part of the function that defines and calls it
+		}
+		// constructor calls and escrow sends of the function, including those inside local closures
+		// and same-module helpers it calls (virtual inlining); each is placed at its call site
+		type site struct {
+			anchor ssa.Instruction
+			call   ssa.CallInstruction
+		}
+		var ctorCalls []site
+		blocked := map[*ssa.BasicBlock]bool{}
+		for _, vs := range p.virtualSites(fn, nil) {
+			if vs.call == nil {
+				continue
+			}
+			if p.callIs(vs.call, ctors...) {
+				// a constructor inside a helper that is itself analysed (it has the constructor) is its business
+				if vs.call.Parent() != fn && !p.isLocalClosure(vs.call.Parent()) {
+					continue
+				}
+				ctorCalls = append(ctorCalls, site{vs.anchor, vs.call})
+			}
+			if be := bankEffect(vs.call); be != nil && be.Op == "Send" && vs.must {
+				ok := false
+				if escrowCall != "" {
+					if _, isC := isCallNamed(be.To, escrowCall); isC {
+						ok = true
+					}
+				}
+				if escrowGlobal != "" && isGlobalNamed(be.To, escrowGlobal) {
+					ok = true
+				}
+				if ok {
+					blocked[vs.anchor.Block()] = true
+				}
 			}
 		}
 		if len(ctorCalls) == 0 {
 			continue
 		}
 		r.FuncsSeen[fname(fn)] = true
-		blocked := map[*ssa.BasicBlock]bool{}
-		for _, be := range sendsOf(fn) {
-			ok := false
-			if escrowCall != "" {
-				if _, isC := isCallNamed(be.To, escrowCall); isC {
-					ok = true
-				}
-			}
-			if escrowGlobal != "" && isGlobalNamed(be.To, escrowGlobal) {
-				ok = true
-			}
-			if ok {
-				blocked[be.Call.Block()] = true
-			}
-		}
 		for i, cc := range ctorCalls {
 			r.Instance(rule)
 			construct := fmt.Sprintf("%s creation #%d", fname(fn), i+1)
 			// every path entry -> ctor -> success must pass an escrow send (before or after the constructor)
 			seenE, _ := reach(fn, nil, nil, blocked)
 			bad := false
-			if seenE[cc.Block()] && !blocked[cc.Block()] {
-				seenA, _ := reach(fn, cc.Block(), nil, blocked)
+			if seenE[cc.anchor.Block()] && !blocked[cc.anchor.Block()] {
+				seenA, _ := reach(fn, cc.anchor.Block(), nil, blocked)
 				for _, t := range p.successTargets(nil, fn, 0) {
 					if seenA[t] {
 						bad = true
@@ -354,9 +370,9 @@ func escrowCreation(p *Prog, r *Report, rule string, ctors []string, escrowCall,
 				}
 			}
 			if len(blocked) == 0 || bad {
-				r.Fail(rule, construct, "a new request/order is recorded on a success path that does not move the coins it records from the requester into the escrow account: the escrow no longer covers the pending requests/orders", p.instrPos(cc), nil)
+				r.Fail(rule, construct, "a new request/order is recorded on a success path that does not move the coins it records from the requester into the escrow account: the escrow no longer covers the pending requests/orders", p.instrPos(cc.call), nil)
 			} else {
-				r.OK(rule, construct, "recorded only on paths that escrow the coins", p.instrPos(cc))
+				r.OK(rule, construct, "recorded only on paths that escrow the coins", p.instrPos(cc.call))
 			}
 		}
 	}
@@ -514,8 +530,8 @@ func rulesC04(p *Prog, r *Report) {
 				r.Instance("R04.4")
 				r.FuncsSeen[fname(fn)] = true
 				construct := fmt.Sprintf("%s %s(%s)", fname(fn), be.Op, liqMod)
-				if allowed[fname(fn)] {
-					r.OK("R04.4", construct, "pool-coin supply changed by an executor / pool creation", p.instrPos(c))
+				if allowed[fname(fn)] || p.onlyCalledFrom(fn, allowed, 0) {
+					r.OK("R04.4", construct, "pool-coin supply changed by an executor / pool creation (or a helper only they call)", p.instrPos(c))
 				} else {
 					r.Fail("R04.4", construct, "the liquidity module's coin supply is changed outside pool creation and the deposit/withdraw executors", p.instrPos(c), nil)
 				}
@@ -525,9 +541,12 @@ func rulesC04(p *Prog, r *Report) {
 		r.Instance("R04.4")
 		// after BurnCoins every success path passes the test PoolCoin.Amount.Equal(ps)
 		var burnB *ssa.BasicBlock
-		for _, c := range calls(ew) {
-			if be := bankEffect(c); be != nil && be.Op == "Burn" {
-				burnB = c.Block()
+		for _, vs := range p.virtualSites(ew, nil) { // the burn may sit in a settlement helper
+			if vs.call == nil {
+				continue
+			}
+			if be := bankEffect(vs.call); be != nil && be.Op == "Burn" {
+				burnB = vs.anchor.Block()
 			}
 		}
 		testBlocks := map[*ssa.BasicBlock]bool{}
@@ -539,7 +558,7 @@ func rulesC04(p *Prog, r *Report) {
 					sup := false
 					for _, arg := range a.Call.Call.Args {
 						for _, o := range p.Origins(arg) {
-							if o.Kind == "call" && p.callIs(o.Call, "GetPoolCoinSupply") {
+							if o.Kind == "call" && (p.callIs(o.Call, "GetPoolCoinSupply") || p.isPoolCoinSupplyRead(o)) {
 								sup = true
 							}
 						}
